@@ -29,10 +29,15 @@ def cdf_configs(tier):
   out = []
   for activation in ('relu6', 'sigmoid'):
     for reduction in ('mean', 'none', 'geometric_mean'):
-      for (input_dim, units, sf) in ((1, 1, 1), (2, 1, 1), (2, 2, 2), (2, 2, 1)):
+      shapes = ((1, 1, 1), (2, 1, 1), (2, 2, 2), (2, 2, 1), (4, 2, 2))   # (4,2,2): input_dim > sparsity_factor > 1
+      if tier != 'quick':
+        shapes += ((4, 4, 2), (6, 3, 3))
+      for (input_dim, units, sf) in shapes:
         for scaling in ('fixed', 'learned_shared', 'learned_per_input'):
           for nk in ((1, 2) if tier == 'quick' else (1, 2, 3)):
             if tier == 'quick' and (nk == 2 and input_dim == 2 and units == 2 and sf == 1):
+              continue
+            if tier == 'quick' and input_dim > 2 and (nk == 2 or scaling == 'learned_shared'):
               continue
             out.append(dict(activation=activation, reduction=reduction, input_dim=input_dim,
                             units=units, sparsity_factor=sf, input_scaling_type=scaling, num_keypoints=nk))
@@ -300,10 +305,26 @@ class PwlFnCase(Case):
     # end points / cyclic / missing: evaluate the real function at the special inputs
     lo = cp.pwl_calibration_fn(inputs=tfc.convert_to_tensor([[kmin]], dtype=tfc.float32), **args)
     hi = cp.pwl_calibration_fn(inputs=tfc.convert_to_tensor([[kmax]], dtype=tfc.float32), **args)
+    # staged facts for the end points: every interpolation weight is 1 at the upper end and 0 at the
+    # lower end (keeps the clamp goals linear; the direct nonlinear goal is unstable in z3)
+    ends = {}
+    if kw['clamp_min'] or kw['clamp_max']:
+      for nm_, xv_ in (('lower', kmin), ('upper', kmax)):
+        ends[nm_] = self._weights(cp, tfc.convert_to_tensor([[xv_]], dtype=tfc.float32), deltas, kmin, U)
     for u in range(U):
+      ls = [P.lift(v) for v in deltas.a[0, u]]
+      ks = [P.const(kmin)]
+      for l in ls[:-1]:
+        ks.append(ks[-1] + l)
       if kw['clamp_min']:
+        for i, w_ in enumerate(ends['lower'][u]):
+          L.nonneg_product(ks[i] - P.const(kmin), E.inv(ls[i]))
+          cl.append(('have:weight-at-lower-end==0[u%d,%d]' % (u, i), w_.eq(0)))
         cl.append(('clamp-min-reached[u%d]' % u, P.lift(lo.a[0, u]).eq(omin)))
       if kw['clamp_max']:
+        for i, w_ in enumerate(ends['upper'][u]):
+          L.nonneg_product(P.const(kmax) - ks[i] - ls[i], E.inv(ls[i]))
+          cl.append(('have:weight-at-upper-end==1[u%d,%d]' % (u, i), w_.eq(1)))
         cl.append(('clamp-max-reached[u%d]' % u, P.lift(hi.a[0, u]).eq(omax)))
       if kw['is_cyclic']:
         cl.append(('cyclic-equal-ends[u%d]' % u, P.lift(lo.a[0, u]).eq(P.lift(hi.a[0, u]))))
